@@ -249,6 +249,47 @@ def analyse_holders(db, unit_names):
                 a = alloc_in(ini.get('init')) if ini.get('init') else None
                 if a is not None and 'member' in ini:
                     classes.setdefault(rec, {}).setdefault(ini['member'], []).append((unit, f, ini['init'], a['callee']))
+    # member functions per record, and what each releases (directly or through member helpers it calls on `this`)
+    methods = {}
+    for un in unit_names:
+        for f in db.unit(un).functions:
+            if f.get('record') and f.get('body') is not None:
+                methods.setdefault(f['record'], {}).setdefault(f['name'], f)
+
+    def direct_frees(f):
+        got = set()
+        for n in walk(f['body']):
+            if n.get('k') == 'CallExpr' and n.get('callee') in ALLOC_FREE.values():
+                v = var_of(n['args'][0]) if n.get('args') else None
+                if v and v[0] == 'member':
+                    got.add((v[2], n['callee']))
+        return got
+
+    def helper_of(rec, n):
+        """n is a call of another member function of the same record on this object"""
+        if n.get('k') == 'CXXMemberCallExpr':
+            g = methods.get(rec, {}).get(n.get('callee'))
+            if g is not None:
+                me = n.get('fn') or {}
+                base = me.get('c', [None])[0] if isinstance(me, dict) else None
+                while base is not None and base.get('k') in ('ImplicitCastExpr', 'ParenExpr'):
+                    base = base['c'][0]
+                if base is None or base.get('k') == 'CXXThisExpr':
+                    return g
+        return None
+
+    def frees_of(rec, f, seen=None):
+        seen = seen or set()
+        if f['name'] in seen:
+            return set()
+        seen.add(f['name'])
+        got = direct_frees(f)
+        for n in walk(f['body']):
+            g = helper_of(rec, n)
+            if g is not None:
+                got |= frees_of(rec, g, seen)
+        return got
+
     for rec, members in classes.items():
         # find destructor
         dtor = None
@@ -256,22 +297,16 @@ def analyse_holders(db, unit_names):
             for f in db.unit(un).functions:
                 if f.get('record') == rec and f.get('dtor'):
                     dtor = (db.unit(un), f)
+        dtor_frees = frees_of(rec, dtor[1]) if dtor is not None else set()
         for m, sites in members.items():
             want = ALLOC_FREE[sites[0][3]]
-            freed_in_dtor = False
-            if dtor is not None:
-                for n in walk(dtor[1]['body']):
-                    if n.get('k') == 'CallExpr' and n.get('callee') == want:
-                        v = var_of(n['args'][0])
-                        if v and v[2] == m:
-                            freed_in_dtor = True
-            if not freed_in_dtor:
+            if (m, want) not in dtor_frees:
                 u, f, node, cal = sites[0]
                 out.append((rec, m, cal, u.loc(node), 'the destructor does not release this member with %s' % want, u.loc(dtor[1]) if dtor else u.loc(f)))
             for (u, f, node, cal) in sites:
                 if f.get('ctor'):
                     continue
-                # a release of the same member must occur earlier in the function body
+                # a release of the same member must occur earlier in the function body (directly or in a member helper)
                 released = False
                 for n in walk(f['body']):
                     if n is node:
@@ -280,6 +315,9 @@ def analyse_holders(db, unit_names):
                         v = var_of(n['args'][0])
                         if v and v[2] == m:
                             released = True
+                    g = helper_of(rec, n)
+                    if g is not None and (m, want) in frees_of(rec, g):
+                        released = True
                 if not released:
                     out.append((rec, m, cal, u.loc(node), 're-allocation in %s without releasing the previous object' % f['name'], u.loc(node)))
     return out, len(classes)
